@@ -350,3 +350,56 @@ Lemma nested_example_lemma :
       [(1, 0, Some 60); (2, 0, Some 60); (3, 0, Some 60); (4, 60, Some 120); (6, 60, Some 120)] /\
     leaves hx_tree = [hx_a; hx_b; hx_c; hx_d].
 Proof. eexists. split; [vm_compute; reflexivity|]. split; vm_compute; reflexivity. Qed.
+
+(* ------------------------------------------------------------------ third hardening: inputs looked at, then edited IN PLACE *)
+(* a call that only reads a part (number_of_staves, clef_map, a note array, an exporter) is no operation of the
+   model: [edit_parts] has no constructor for it, so whatever the code remembers during such a call must not show.
+   O2 for the parts as they are at the call, in "staff" and in "auto" mode (the "voice" mode: above). *)
+Lemma edited_staves_disjoint_lemma ps0 eds L out :
+  merge_parts MStaff (map TPart (edit_parts eds ps0)) = RMerged L out ->
+  parts_good staves_ok (edit_parts eds ps0) ->
+  forall j1 j2 e1 e2, In (j1, e1) out -> In (j2, e2) out -> j1 <> j2 -> staffed e1 -> staffed e2 ->
+  e_staff e1 <> e_staff e2.
+Proof.
+  intros Hm Hg. pose proof (staves_disjoint_lemma (map TPart (edit_parts eds ps0)) L out Hm) as H.
+  rewrite flatten_map_TPart in H. exact (H Hg).
+Qed.
+
+Lemma edited_auto_staves_disjoint_lemma ps0 eds L out :
+  merge_parts MAuto (map TPart (edit_parts eds ps0)) = RMerged L out ->
+  forall j1 j2 e1 e2, In (j1, e1) out -> In (j2, e2) out -> j1 <> j2 -> staffed e1 -> staffed e2 ->
+  e_staff e1 <> e_staff e2.
+Proof. intros Hm. exact (auto_staves_disjoint_lemma (map TPart (edit_parts eds ps0)) L out Hm). Qed.
+
+(* the general memo is the old one in "voice" mode *)
+Lemma memo_offsets_voice ps0 ps : merge_memo_offsets MVoice ps0 ps = merge_voice_memo_offsets ps0 ps.
+Proof. reflexivity. Qed.
+
+(* with nothing edited the memoising variant IS the code (so the refutation below is about the edit only) *)
+Definition hy_a : part := ([hx_note 1 1 60 0 4; hx_note 7 2 48 0 4], 4).
+
+Lemma staff_memo_refuted_lemma :
+  exists ps0 eds out e1 e2,
+    (* input 0 looked at while everything is on staff 1, then its note 7 moved to staff 2 in place *)
+    eds = [(0%nat, PSetStaff 7 (Some 2))] /\
+    merge_memo_offsets MStaff ps0 (edit_parts eds ps0) = Some out /\
+    In (0%nat, e1) out /\ In (1%nat, e2) out /\ staffed e1 /\ staffed e2 /\ e_staff e1 = e_staff e2 /\
+    parts_good staves_ok (edit_parts eds ps0) /\
+    (exists L out', merge_parts MStaff (map TPart (edit_parts eds ps0)) = RMerged L out' /\
+                   map (fun x => (fst x, e_oid (snd x), e_staff (snd x))) out' = [(0%nat, 1, Some 1); (0%nat, 7, Some 2); (1%nat, 2, Some 3)]) /\
+    (exists L out0, merge_parts MStaff (map TPart ps0) = RMerged L out0 /\ merge_memo_offsets MStaff ps0 ps0 = Some out0).
+Proof.
+  exists [hy_a; hx_b], [(0%nat, PSetStaff 7 (Some 2))].
+  eexists. exists (mkElem 7 KNote 0 (Some 12) (Some 2) (Some 2) 48 None None),
+                  (mkElem 2 KNote 0 (Some 12) (Some 1) (Some 2) 64 None None).
+  split; [reflexivity|].
+  split; [vm_compute; reflexivity|].
+  split; [vm_compute; auto|]. split; [vm_compute; auto 6|].
+  split; [reflexivity|]. split; [reflexivity|]. split; [reflexivity|].
+  split; [|split].
+  - change (edit_parts [(0%nat, PSetStaff 7 (Some 2))] [hy_a; hx_b])
+      with [([hx_note 1 1 60 0 4; mkElem 7 KNote 0 (Some 4) (Some 2) (Some 2) 48 None None], 4); hx_b].
+    repeat constructor; apply staves_okb_spec; reflexivity.
+  - eexists. eexists. split; vm_compute; reflexivity.
+  - eexists. eexists. split; vm_compute; reflexivity.
+Qed.
